@@ -16,6 +16,10 @@ def btoks(ts):
         if t["k"] == "def":
             out.append({"k": "def", "n": t["n"], "a": btoks(t["a"]), "g": False, "s": t.get("s", "")})
             continue
+        if t["k"] == "cond":
+            out.append({"k": "cond", "n": t["n"], "s": t["s"], "g": False,
+                        "a": [{"k": "grp", "n": "", "a": btoks(g["a"]), "g": False, "s": ""} for g in t["a"]]})
+            continue
         if t["k"] == "use":
             a = [] if not t["a"] else [[btoks(x) for x in t["a"][0]]]
             out.append({"k": "use", "n": t["n"], "a": a, "g": bool(t.get("g"))})
@@ -154,6 +158,23 @@ def rand_program(rng):
                 # an object-like `define inside a body: it ends its line, so a continuation follows
                 body.append({"k": "def", "n": "M%d" % rng.randrange(4), "a": [pp.bt("lit", "in%d" % rng.randint(0, 9))], "g": False, "s": ""})
                 body.append(pp.bt("cont")); body.append(pp.bt("lit", rng.choice(WORDS))); prev_plain = True
+            elif r >= 0.965 and body and body[-1]["k"] == "lit":
+                # a conditional inside a body: chosen when the expansion is rescanned (on a macro of this program, which an
+                # earlier part of the body or of the file may have undefined).  Directly behind a plain token only, and no
+                # formal directly in front of `else / `endif: a string there would be D2 territory
+                def branch():
+                    b = []
+                    for _ in range(rng.randint(0, 3)):
+                        if nform and rng.random() < 0.4:
+                            b += [pp.bt("id", "f%d" % rng.randrange(nform)), pp.bt("lit", rng.choice(WORDS))]
+                        elif macros and rng.random() < 0.3:
+                            b += [rand_use_bt(rng, rng.choice(macros), 1, macros), pp.bt("lit", rng.choice(WORDS))]
+                        else:
+                            b.append(pp.bt("lit", rng.choice(WORDS)))
+                    return b
+                body.append({"k": "cond", "n": "M%d" % rng.randrange(4), "s": rng.choice(["ifdef", "ifndef"]), "g": False,
+                             "a": [{"k": "grp", "n": "", "a": branch(), "g": False, "s": ""}, {"k": "grp", "n": "", "a": branch(), "g": False, "s": ""}]})
+                prev_plain = False
             elif r < 0.9 and not (body and body[-1]["k"] in ("str", "bqs")):
                 # a directive inside a body is executed when the expansion is rescanned
                 body.append(pp.bt("undef", "M%d" % rng.randrange(4)) if rng.random() < 0.8 else pp.bt("undefall")); prev_plain = False
